@@ -100,10 +100,68 @@ SYNTH = {"alpha": [(-57, -47)] * 14, "pi": [(-57, -70)] * 16, "three10": [(-49, 
          "strand_turn": [(-120, 130)] * 6 + [(-60, -30), (-90, 0)] + [(-120, 130)] * 6, "ppII": [(-75, 145)] * 10}
 
 
+def _ladder(rs):
+    """a designed beta ladder: residues are placed as isolated N/CA/C/O groups so that exactly the chosen residue pairs are mutually
+    H-bonded (antiparallel pattern), with gaps of 0..4 unpaired residues on either strand between consecutive pairs -- ladders of
+    several bridge segments linked through one, two or more bulges, which no protein of tests/data and no ideal peptide contains.
+    (What the frame really contains is read back through md.kabsch_sander by the trace record; this only designs the input.)"""
+    import mdtraj as md
+    from mdtraj.core import element as E
+    m = int(rs.randint(3, 9))
+    ga = [int(g) for g in rs.choice([0, 0, 0, 1, 1, 2, 3, 4], size=m)]
+    gb = [int(g) for g in rs.choice([0, 0, 0, 0, 1, 2, 3, 5], size=m)]
+    a = [3]
+    for k in range(1, m):
+        a.append(a[-1] + 2 + ga[k])
+    span_b = sum(2 + gb[k] for k in range(1, m))
+    b0 = a[-1] + 4 + int(rs.randint(0, 3)) + span_b
+    b = [b0]
+    for k in range(1, m):
+        b.append(b[-1] - 2 - gb[k])
+    n_res = b0 + 4
+    y = np.array([0.0, 1.0, 0.0])
+    u = {}
+    for ak, bk in zip(a, b):
+        u[bk] = y; u[ak] = -y
+    co = {r: u[r] for r in u}
+    for r in u:
+        if r - 1 not in co:
+            co[r - 1] = -u[r]            # the amide hydrogen of r points along the previous residue's O->C direction
+    pos = {}
+    for k, (ak, bk) in enumerate(zip(a, b)):
+        o = np.array([3.0 * k, 0.0, 0.0])
+        pos[ak] = [o + [0.0, 0.413, 0.0], o + [0.15, 0.50, 0.0], o + [0.3, 0.413, 0.0], o + [0.3, 0.29, 0.0]]
+        pos[bk] = [o + [0.3, 0.0, 0.0], o + [0.15, -0.09, 0.0], o + [0.0, 0.0, 0.0], o + [0.0, 0.123, 0.0]]
+    for r in range(n_res):
+        if r not in pos:
+            o = np.array([1.5 * r, 5.0 + 1.3 * (r % 3), 4.0]); c = o + [0.25, 0.0, 0.0]
+            pos[r] = [o, o + [0.12, 0.08, 0.0], c, c + 0.123 * co.get(r, y)]
+    top = md.Topology(); ch = top.add_chain()
+    xyz = []
+    for r in range(n_res):
+        res = top.add_residue("ALA", ch, resSeq=r + 1)
+        for nm, p_ in zip(("N", "CA", "C", "O"), pos[r]):
+            top.add_atom(nm, E.get_by_symbol(nm[0]), res)
+            xyz.append(p_)
+    return md.Trajectory(np.array(xyz, dtype=np.float32)[None], top), dict(a=a, b=b)
+
+
 def _gen_synth(task):
     import mdtraj as md
     name, seed, thorough, base_id = task
     rs = np.random.RandomState(seed)
+    if name.startswith("ladder"):
+        recs = []
+        for i in range(12 if not thorough else 60):
+            t, design = _ladder(rs)
+            try:
+                r = _record(t, 0, "synthetic:%s/%d pairs=%s" % (name, i, list(zip(design["a"], design["b"]))), base_id + i)
+            except Exception as e:  # noqa
+                r = dict(id=base_id + i, tag="synthetic:%s/%d" % (name, i), error="%s: %s" % (type(e).__name__, str(e)[:200]))
+            if r is not None:
+                r["designed_pairs"] = len(design["a"]); r["designed_found"] = sum(1 for x, y_ in zip(design["a"], design["b"]) if [x, y_] in r.get("hb", []) and [y_, x] in r.get("hb", []))
+                recs.append(r)
+        return recs
     t = _peptide(SYNTH[name])
     recs = []
     rid = base_id
@@ -172,7 +230,7 @@ def run(ctx):
         recs = [json.load(open(ctx.replay))["first"]["detail"]["rec"]]
     else:
         recs = []
-        stasks = [(nm, ctx.seed * 100 + 50 + i, ctx.thorough, 500000 + i * 1000) for i, nm in enumerate(sorted(SYNTH))]
+        stasks = [(nm, ctx.seed * 100 + 50 + i, ctx.thorough, 500000 + i * 1000) for i, nm in enumerate(sorted(SYNTH) + ["ladder1", "ladder2", "ladder3", "ladder4"])]
         for st, val in pool.run_tasks(_gen, tasks, workers=8, timeout=900, batch=1) + pool.run_tasks(_gen_synth, stasks, workers=8, timeout=900, batch=1):
             if st != "ok":
                 ctx.machinery_failure("trace generation failed: %s %s" % (st, str(val)[:400]))
